@@ -391,11 +391,18 @@ type generation struct {
 }
 
 // openGeneration mirrors internal/storage/config (AuditStorageMiddlewareConfiguration.Instantiate).
+// A sink that refuses the existing file is an observation (event open_failed), not a driver error.
 func openGeneration(path string, ser serialization.Serializer, k *keys, run *runState, inner storage.Storage) *generation {
 	fs, err := sink.NewFileSink(path, ser)
-	must(err)
+	if err != nil {
+		run.col.add(event{"ev": "open_failed", "err": err.Error()})
+		return nil
+	}
 	st, err := fs.InitialState()
-	must(err)
+	if err != nil {
+		run.col.add(event{"ev": "open_failed", "err": err.Error()})
+		return nil
+	}
 	var lastHash []byte
 	var buf [][]byte
 	if st != nil && len(st.LastHash) > 0 {
